@@ -221,7 +221,7 @@ ADDED = {
     "C09": " Also decided: the freshness test guarding the encoder tables is a by-label look-up or ONE counting function compared before/after; the cache barriers and log/replay obligations of C08; index-pairing of the framework store.",
     "C11": " Also decided: literal provenance across component frameworks; the grounded propagation counts stored attacks with the same multiplicity when it initialises and when it decrements its counters; the whole counting argument of the grounded extension (rule grounded-propagation).",
     "C12": " Also decided: an entry is removed from a per-argument index list at the position found by searching that same list.",
-    "C14": " Also decided: the output language of write_framework equals (arg(L).\\n)*(att(L,L).\\n)* (F13), declarations are written in iterator order with nothing filtered or sorted, and no writer uses a bare Write::write.",
+    "C14": " Also decided: the output language of write_framework equals (arg(L).\\n)*(att(L,L).\\n)* (F13), declarations are written in iterator order with nothing filtered or sorted, and no writer uses a bare Write::write; a local staging buffer is cleared only after a write_all of the whole buffer (other buffer forms: not decided).",
     "C15": " Also decided: the integer fields n_vars() is computed from are only ever raised (max / increment / guarded store).",
     "C16": " Also decided: the waiting thread never feeds the child's stdin itself before the piped stdout is drained.",
     "C18": " Also decided: the stored model is replaced together with the stored set, from the same SAT answer; a query method delegates to at most one other query method per path; a retired selector was created in the iteration that retires it; the same-range search keeps the polarity of the two halves of the range split; the installed increase/discard functions add nothing but the selector to those halves; a CO/ST query never starts further queries per listed argument.",
